@@ -135,12 +135,18 @@ package commentparser
 //@ // all of them have been delivered.
 //@ ghostvar sentN int
 //@ func (Comments).ChunkIterator$1
+//@   // the goroutine is the only one that may close ch, and closes it last:
+//@   // while it holds the unused close permission its sends cannot panic
+//@   holds mayclose(ch) 1
+//@   requires mayclose(ch) == 1
 //@   requires forall k int :: 0 <= k && k < len(c) ==> c[k] != nil
 //@   ghostset sentN = 0 atentry
 //@   onsend requires len(value) > 0 && sentN + len(value) <= len(c) && (forall j int :: 0 <= j && j < len(value) ==> value[j] == c[sentN + j])
 //@   ghostset sentN = sentN + len(value) onsend
 //@   ensures sentN == len(c)
 //@   modifies nothing
+//@   loop 1 invariant mayclose(ch) == 1
+//@   loop 2 invariant mayclose(ch) == 1
 //@   loop 1 invariant 0 <= index && index <= len(c) && sentN == index && prevChunk != nil && (index < len(c) ==> prevChunk == c[index])
 //@   loop 2 invariant 0 <= index && index <= len(c) && sentN + len(chunk) == index && prevChunk != nil && (chunk == nil || fresh(chunk)) && (len(chunk) == 0 && index < len(c) ==> prevChunk == c[index])
 //@   loop 2 invariant forall j int :: 0 <= j && j < len(chunk) ==> chunk[j] == c[sentN + j]
